@@ -132,6 +132,252 @@ def _some_arm_calls(fb, fc, fd, bb):
     return False
 
 
+SV = "brush_core::variables::ShellVariable"
+SVAL = "brush_core::variables::ShellValue"
+
+# functions allowed to write ShellVariable.value without a readonly test (reviewed, one reason each)
+VALUE_WRITE_EXEMPT = {
+    SV + "::new": "constructor",
+    "<" + SV + " as core::default::Default>::default": "constructor",
+    SV + "::convert_to_indexed_array": "representation change only (scalar -> {0: scalar}); callers: assign_at_index after its readonly test, declare -a",
+    SV + "::convert_to_associative_array": "representation change only (scalar -> {\"0\": scalar}); callers: declare -A",
+}
+
+
+def _value_mut_sites(b):
+    """(bb, idx|None, kind, line) where the place written / mutably borrowed goes through field
+    ShellVariable.value"""
+    out = []
+
+    def through_value(pl):
+        return any(f == (SV, "value") for f in pl.fields())
+    for bl in b.blocks:
+        if bl.cleanup:
+            continue
+        for i, s in enumerate(bl.stmts):
+            if s.kind == 'a':
+                if through_value(s.place):
+                    out.append((bl.idx, i, "write", s.line))
+                elif s.rv.kind in ("ref", "rawptr") and s.rv.raw.get("mut") and through_value(s.rv.place):
+                    out.append((bl.idx, i, "&mut", s.line))
+        t = bl.term
+        if t.kind == "call" and t.dest is not None and through_value(t.dest):
+            out.append((bl.idx, None, "call-dest", t.line))
+    return out
+
+
+def _readonly_guards(b):
+    """switch blocks testing the readonly flag: returns list of (bb, true_successor)"""
+    c = cfg_of(b)
+    d = defs_of(b)
+    out = []
+    for bl in b.blocks:
+        t = bl.term
+        if t.kind != "switch" or bl.idx not in c.reach:
+            continue
+        hit = False
+        for o in origins(b, d, t.discr):
+            if "readonly" in o.field_path():
+                hit = True
+            if o.kind == 'call' and o.node.best_callee() == SV + "::is_readonly":
+                hit = True
+        if hit and t.ty == "bool":
+            # value 0 -> false edge; otherwise -> true edge
+            out.append((bl.idx, t.otherwise))
+    return out
+
+
+def readonly_rule(prog, chk):
+    chk.rule("R9.1", "every write / &mut borrow through ShellVariable.value is dominated by a test of the readonly flag whose "
+                     "true edge cannot reach the write, or is in a reviewed constructor / representation change")
+    n = 0
+    for b in prog.all_bodies({"brush_core"}):
+        sites = _value_mut_sites(b)
+        if not sites:
+            continue
+        fn = owner(b.name)
+        c = cfg_of(b)
+        guards = _readonly_guards(b)
+        unguarded = []
+        for bb, idx, kind, line in sites:
+            if bb not in c.reach:
+                continue
+            n += 1
+            ok = False
+            for g, tsucc in guards:
+                if c.dominates(g, bb) and bb not in c.reachable_from(tsucc):
+                    ok = True
+            if not ok:
+                unguarded.append((kind, line))
+        if not unguarded:
+            chk.ok("R9.1", "writer:" + fn, "%d value write/borrow sites, all behind the readonly test" % len(sites), function=fn)
+        elif fn in VALUE_WRITE_EXEMPT:
+            chk.ok("R9.1", "exempt:" + fn, VALUE_WRITE_EXEMPT[fn], nontrivial=False, function=fn)
+        else:
+            chk.fail("R9.1", fn, "unguarded-value-write",
+                     "%s writes ShellVariable.value with no dominating readonly test (%s at %s): a readonly variable can be modified through this path"
+                     % (fn, unguarded[0][0], b.loc(unguarded[0][1])))
+    chk.floor("R9.1", "value write sites", n, 8)
+
+    # no API hands out &mut ShellValue
+    chk.rule("R9.1t", "no function returns a mutable reference to a ShellValue (all writers live in brush_core::variables)")
+    nf = 0
+    for name, fn in prog.fns.items():
+        if fn["crate"] not in SHIPPED:
+            continue
+        nf += 1
+        ret = fn["sig"].split("->", 1)[1] if "->" in fn["sig"] else ""
+        if "mut brush_core::variables::ShellValue" in ret:
+            chk.fail("R9.1t", name, "returns-mut-ShellValue", "%s returns %s" % (name, ret.strip()))
+    chk.ok("R9.1t", "signatures", "%d function signatures scanned" % nf, nontrivial=False)
+    adt = prog.adts.get(SV)
+    if chk.anchor("R9.1t", SV, adt):
+        for f in adt["variants"][0]["fields"]:
+            if f["name"] in ("value", "readonly"):
+                if f["pub"]:
+                    chk.fail("R9.1t", SV, "pub-field:" + f["name"], "ShellVariable.%s is public: writers outside the module become possible" % f["name"])
+                else:
+                    chk.ok("R9.1t", "private:" + f["name"], "field is private", nontrivial=False)
+
+    # unset path
+    chk.rule("R9.1u", "ShellVariableMap::unset is reached only behind the is_readonly test of try_unset_in_map")
+    MAPUNSET = "brush_core::env::ShellVariableMap::unset"
+    us = prog.callers_of(MAPUNSET, crates=SHIPPED)
+    chk.floor("R9.1u", "ShellVariableMap::unset callers", len(us), 1)
+    for b, bb, t in us:
+        fn = owner(b.name)
+        c = cfg_of(b)
+        d = defs_of(b)
+        ok = False
+        for bl in b.blocks:
+            tt = bl.term
+            if tt.kind == "switch" and c.dominates(bl.idx, bb):
+                for o in origins(b, d, tt.discr):
+                    # Option<bool> from map.get(name).map(is_readonly): a closure / fn const is_readonly
+                    if o.kind == 'call':
+                        for a in o.node.args:
+                            if a.const is not None and a.const.fn and canon(a.const.fn).endswith("is_readonly"):
+                                ok = True
+                        if o.node.best_callee() == SV + "::is_readonly":
+                            ok = True
+                        for a in o.node.args:
+                            for oo in origins(b, d, a):
+                                if oo.kind == 'agg' and oo.node.raw.get("ak") == "closure":
+                                    cb = prog.body(canon(oo.node.raw["def"]))
+                                    if cb is not None and call_sites(cb, {SV + "::is_readonly"}):
+                                        ok = True
+        if ok:
+            chk.ok("R9.1u", "unset@" + fn, "dominated by a branch on is_readonly", function=fn)
+        else:
+            chk.fail("R9.1u", fn, "unset-without-readonly-test", "%s calls ShellVariableMap::unset (%s) with no dominating readonly test" % (fn, b.loc(t.line)))
+
+    # whole-variable replacement
+    chk.rule("R9.1c", "ShellVariableMap::set (whole-variable replacement / shadowing) is only reached after a readonly test of the "
+                      "visible variable of that name")
+    MAPSET = "brush_core::env::ShellVariableMap::set"
+    for b, bb, t in prog.callers_of(MAPSET, crates=SHIPPED):
+        fn = owner(b.name)
+        c = cfg_of(b)
+        guards = _readonly_guards(b)
+        has = any(c.dominates(g, bb) for g, _ in guards) or bool(call_sites(b, {SV + "::is_readonly"}))
+        if fn == "brush_core::env::ShellEnvironment::unset":
+            chk.ok("R9.1c", "set@" + fn, "tombstone written only after try_unset_in_map succeeded (R9.1u)", function=fn)
+        elif has:
+            chk.ok("R9.1c", "set@" + fn, "readonly consulted before replacement", function=fn)
+        else:
+            chk.fail("R9.1c", fn, "replace-without-readonly-test",
+                     "%s replaces/shadows a variable via ShellVariableMap::set (%s) without consulting the readonly flag of the visible variable"
+                     % (fn, b.loc(t.line)))
+
+
+def spawn_env_rule(prog, chk):
+    chk.rule("R9.4", "std::process::Command::new has one call site (compose_std_command); env_clear dominates every Command::env; "
+                     "variable exports are inside the iter_exported loop behind is_set")
+    CMDNEW = "std::process::Command::new"
+    sites = prog.callers_of(CMDNEW, crates=SHIPPED)
+    chk.floor("R9.4", "Command::new sites", len(sites), 1)
+    CSC = "brush_core::commands::compose_std_command"
+    for b, bb, t in sites:
+        fn = owner(b.name)
+        if fn != CSC:
+            chk.fail("R9.4", fn, "extra-spawn-site", "%s constructs a std::process::Command (%s) outside compose_std_command: child environment not built from exported variables"
+                     % (fn, b.loc(t.line)))
+    b = prog.impl_body(CSC)
+    if not chk.anchor("R9.4", CSC, b):
+        return
+    c = cfg_of(b)
+    clear = [x for x, _ in call_sites(b, {"std::process::Command::env_clear"})]
+    envs = call_sites(b, {"std::process::Command::env"})
+    chk.floor("R9.4", "Command::env sites", len(envs), 3)
+    if not clear:
+        chk.fail("R9.4", CSC, "env_clear-missing", "compose_std_command no longer calls env_clear: the brush process environment leaks into children")
+    for ebb, et in envs:
+        if clear and c.dominates(clear[0], ebb):
+            chk.ok("R9.4", "env@line-after-clear", "env_clear dominates Command::env", function=CSC)
+        elif clear:
+            chk.fail("R9.4", CSC, "env-before-clear", "Command::env at %s is not dominated by env_clear" % b.loc(et.line))
+    # the variable export: an env call inside a loop whose iterator comes from iter_exported and that is dominated by is_set test
+    it = call_sites(b, {"brush_core::env::ShellEnvironment::iter_exported"})
+    isset = call_sites(b, {SVAL + "::is_set"})
+    if not it:
+        chk.fail("R9.4", CSC, "iter_exported-missing", "compose_std_command no longer iterates iter_exported()")
+        return
+    loops = c.source_loops()
+    found = False
+    for ebb, et in envs:
+        for h, blks in loops.items():
+            if ebb in blks and c.dominates(it[0][0], h):
+                # is_set guard inside the loop dominating the env call, with a skipping edge
+                gs = [x for x, _ in isset if x in blks and c.dominates(x, ebb)]
+                if gs:
+                    # the env call must not be reachable from the is_set==false edge without passing the header
+                    g = gs[0]
+                    sw = _switch_after(b, c, g)
+                    if sw is not None:
+                        fsucc = [tgt for v, tgt in b.blocks[sw].term.targets if v == 0]
+                        if fsucc and ebb not in c.reachable_from(fsucc[0], avoid=[h]):
+                            found = True
+    if found:
+        chk.ok("R9.4", "export-loop", "Command::env in the iter_exported loop is control dependent on value().is_set()", function=CSC)
+    else:
+        chk.fail("R9.4", CSC, "export-not-guarded", "no Command::env call inside the iter_exported loop guarded by is_set()")
+
+
+def _switch_after(b, c, bb):
+    """the first switch block reached from bb through gotos/drops"""
+    x = bb
+    for _ in range(10):
+        t = b.blocks[x].term
+        if t.kind == "switch":
+            return x
+        ss = c.succ[x]
+        if len(ss) != 1:
+            return None
+        x = ss[0]
+    return None
+
+
 def run(prog, chk):
-    chk.explanation = "C09 structural clauses (see rules/c09.py)"
+    chk.explanation = (
+        "FIELDW: every MIR write / &mut borrow through ShellVariable.value is dominated by the readonly test (or is a reviewed "
+        "constructor / representation change); no API returns &mut ShellValue; unset and whole-variable replacement are behind "
+        "readonly tests; the command ScopeGuard / post_execute pairing holds on every SimpleCommand dispatch path; enter/leave "
+        "function pairing; exactly one std::process::Command construction site whose environment is cleared and filled from "
+        "exported, set variables. Not decided: dynamic-scoping visibility, attribute effects, bash equality.")
+    chk.assumptions = ["rustc MIR + field resolution", "ShellVariable.value is private (checked), so all writers are in brush_core::variables"]
+    readonly_rule(prog, chk)
     scope_guard_rule(prog, chk, "R9.2")
+    # R9.3 local scope pairing (same rule instance as C18 R18.1 for enter_function)
+    chk.rule("R9.3", "enter_function … leave_function paired on every path of invoke_shell_function")
+    summ = Summaries(prog)
+    SHELL = "brush_core::shell::Shell"
+    sites = prog.callers_of(SHELL + "::enter_function", crates=SHIPPED)
+    chk.floor("R9.3", "enter_function callers", len(sites), 1)
+    for b, bb, t in sites:
+        rel = [x for x, _ in call_sites(b, {SHELL + "::leave_function"})]
+        esc = pair_escapes(b, bb, rel, summ)
+        for key, msg, path in esc:
+            chk.fail("R9.3", owner(b.name), "enter_function|" + key, msg)
+        if not esc:
+            chk.ok("R9.3", "enter/leave@" + owner(b.name), "leave_function post-dominates enter_function", function=owner(b.name))
+    spawn_env_rule(prog, chk)
